@@ -30,8 +30,11 @@ def oraclize(qf: QlassF, element: Any, name="oracle"):
     """Transform a QlassF qf and an element to an oracle {f(x) = x == element}"""
     argt_name = type_repr(qf.args[0].ttype)
 
-    # Avoid a name clash between the oracle and qf, without altering qf
-    qf_name = f"_{name}" if qf.name == name else qf.name
+    # Avoid a name clash between the oracle and qf, without altering qf; a function named
+    # like a builtin (sum, max, ...) would be translated as the builtin inside the oracle
+    builtin_names = ["print", "range", "len", "sum", "ord", "chr", "any", "all", "min"]
+    builtin_names += ["max", "int", "float"]
+    qf_name = f"_{qf.name}" if qf.name in [name] + builtin_names else qf.name
     qf_logicfun = (qf_name,) + qf.to_logicfun()[1:]
 
     fs = f"def {name}(v: {argt_name}) -> bool:\n   return {qf_name}(v) == {element}"
